@@ -5,6 +5,7 @@ package main
 import (
 	"fmt"
 	"go/ast"
+	"go/token"
 	"go/types"
 	"sort"
 	"strings"
@@ -20,6 +21,7 @@ type pfSpec struct {
 	coq   string         // name of the generated definition
 	reads []string       // keeper methods: the callee names (through the receiver) that are pure store reads = inputs
 	errs  map[string]int // error expression (source text) -> code; any other non-nil error is 1
+	cell  *pfCellSpec    // keeper methods: the store cell the function reads and writes (emit_purefuns_slices.go)
 }
 
 func pfFindFun(c *corpus, s pfSpec) (*packages.Package, *ast.FuncDecl) {
@@ -112,13 +114,27 @@ func pfResolve(c *corpus, s pfSpec) *pfFun {
 		}
 	}
 	for i := 0; i < sig.Results().Len(); i++ {
-		kd := pfKind(sig.Results().At(i).Type())
-		if !pfScalar(kd) {
-			g.unrec = append(g.unrec, "result of untranslated type "+sig.Results().At(i).Type().String())
+		rt := sig.Results().At(i).Type()
+		kd := pfKind(rt)
+		if pfScalar(kd) {
+			nilable := (kd == "int" || kd == "dec") && pfReturnsNilLit(fd, sig.Results().Len(), i)
+			if nilable {
+				kd += "?" // some return gives the nil value T{}: the component is an option Z
+			}
+			g.resK = append(g.resK, kd)
+			g.resShape, g.resFieldK, g.resNil = append(g.resShape, nil), append(g.resFieldK, nil), append(g.resNil, nilable)
+			continue
+		}
+		// a struct result: one component per scalar field, in declaration order
+		_, isStruct := types.Unalias(rt).Underlying().(*types.Struct)
+		names, kinds := pfStructFields(rt)
+		if _, ptr := types.Unalias(rt).(*types.Pointer); ptr || !isStruct || len(names) == 0 {
+			g.unrec = append(g.unrec, "result of untranslated type "+rt.String())
 			g.decl = nil
 			return g
 		}
-		g.resK = append(g.resK, kd)
+		g.resK = append(g.resK, kinds...)
+		g.resShape, g.resFieldK, g.resNil = append(g.resShape, names), append(g.resFieldK, kinds), append(g.resNil, false)
 	}
 	return g
 }
@@ -155,13 +171,22 @@ func (t *pfTr) translateFun(g *pfFun) {
 			en[r] = pfNil
 		case "bool":
 			en[r] = "false"
+		case "list":
+			en[r] = "(@nil Z)"
+		case "":
+			en[r] = t.newStruct(&pfStruct{over: map[string]string{}}) // a struct result: the zero value
 		default:
 			en[r] = "0"
 		}
 	}
 	g.body = t.block(g.decl.Body.List, en, func(e pfEnv) string {
 		if sig.Results().Len() == 0 {
-			return "Ok tt"
+			outs, bad := t.cellOutputs(e)
+			if bad != "" {
+				return t.unrec(g.decl, bad)
+			}
+			_, ex := pfTuple(outs)
+			return "Ok " + ex
 		}
 		return t.unrec(g.decl, "control reaches the end of the function")
 	})
@@ -255,6 +280,9 @@ func (t *pfTr) readKey(c *ast.CallExpr, en pfEnv) (string, bool) {
 
 // storeRead: ids := k.Get..(ctx, ..) for a listed read; each result becomes an input
 func (t *pfTr) storeRead(c *ast.CallExpr, ids []*ast.Ident, en pfEnv, k func(pfEnv) string) (string, bool) {
+	if r, ok := t.cellRead(c, ids, en, k); ok {
+		return r, true
+	}
 	key, ok := t.readKey(c, en)
 	if !ok {
 		return "", false
@@ -298,23 +326,59 @@ func (t *pfTr) storeRead(c *ast.CallExpr, ids []*ast.Ident, en pfEnv, k func(pfE
 	return k(e2), true
 }
 
-// rangeStmt: loops are outside the translated subset (a function with a loop is not listed)
-func (t *pfTr) rangeStmt(x *ast.RangeStmt, en pfEnv, k func(pfEnv) string) string {
-	return t.unrec(x, "loop")
+// structArgField: the callee g discovered the input "param <p>.<path>"; in this call it is the field
+// <path> of the struct value passed for p
+func (t *pfTr) structArgField(x *ast.CallExpr, g *pfFun, key, kind string, en pfEnv) (string, bool) {
+	rest := strings.TrimPrefix(key, "param ")
+	dot := strings.Index(rest, ".")
+	if dot < 0 || strings.HasSuffix(rest, "()") {
+		return "", false
+	}
+	pname, path := rest[:dot], strings.Split(rest[dot+1:], ".")
+	sig := g.obj.Type().(*types.Signature)
+	for i := 0; i < sig.Params().Len() && i < len(x.Args); i++ {
+		if sig.Params().At(i).Name() != pname {
+			continue
+		}
+		id, ok := ast.Unparen(x.Args[i]).(*ast.Ident)
+		if !ok {
+			return "", false
+		}
+		v, ok := en[t.objOf(id)]
+		if !ok || !(strings.HasPrefix(v, pfInPrefix) || strings.HasPrefix(v, pfStPrefix)) {
+			return "", false
+		}
+		a, ok := t.structField(v, path, kind)
+		if !ok || pfOpaque(a) {
+			return "", false
+		}
+		return a, true
+	}
+	return "", false
 }
 
 // ---------------------------------------------------------------------------------------------
 // printer
 
 func pfResultType(g *pfFun) string {
-	if len(g.resK) == 0 {
-		return "outcome unit"
-	}
 	var ts []string
 	for _, k := range g.resK {
 		ts = append(ts, pfCoqType(k))
 	}
+	if g.spec.cell != nil && g.cellFields != nil {
+		// the final content of the store cell: found, then the record's fields
+		ts = append(ts, "bool")
+		for _, k := range g.cellKinds {
+			ts = append(ts, pfCoqType(k))
+		}
+	}
+	if len(ts) == 0 {
+		return "outcome unit"
+	}
 	if len(ts) == 1 {
+		if strings.Contains(ts[0], " ") {
+			return "outcome (" + ts[0] + ")"
+		}
 		return "outcome " + ts[0]
 	}
 	return "outcome (" + strings.Join(ts, " * ") + ")"
@@ -334,7 +398,8 @@ func pfIndent(body string) string {
 }
 
 func emitPureFuns(c *corpus) (string, error) {
-	t := &pfTr{c: c, funs: map[*types.Func]*pfFun{}, pkgVarConst: map[types.Object]bool{}}
+	t := &pfTr{c: c, funs: map[*types.Func]*pfFun{}, pkgVarConst: map[types.Object]bool{}, sliceOK: map[ast.Node]bool{},
+		cellObj: types.NewVar(token.NoPos, nil, "store cell", types.Typ[types.Invalid])}
 	var all []*pfFun
 	for _, s := range pureFunSpecs {
 		g := pfResolve(c, s)
@@ -394,6 +459,12 @@ func emitPureFuns(c *corpus) (string, error) {
 				}
 				for _, e := range g.extra {
 					fmt.Fprintf(&b, "\n     %s = %s", e.name, strings.ReplaceAll(keys[e.name], "*)", "* )"))
+				}
+			}
+			if g.spec.cell != nil && g.cellFields != nil {
+				fmt.Fprintf(&b, "\n   store cell %s/%s: after the results, the content of the cell on return:\n     found", g.spec.cell.get, g.spec.cell.set)
+				for _, n := range g.cellFields {
+					b.WriteString(", " + n)
 				}
 			}
 			b.WriteString(" *)\n")
